@@ -32,6 +32,7 @@ const (
 	PolicyBernoulli = 1 // switch at a yield with probability P
 	PolicyPCT       = 2 // priority schedule with change points
 	PolicyExplicit  = 3 // replay of a recorded switch list
+	PolicySweep     = 4 // exactly one pre-emption: task SweepTask at its SweepK-th hot yield
 )
 
 // Map-order policies.
@@ -75,6 +76,8 @@ type Config struct {
 	Explicit   []Switch // PolicyExplicit: switch list
 	MaxYields  uint64   // 0 = unlimited
 	KeepSwitch int      // keep at most this many switches in the result (all are hashed)
+	SweepTask  int      // PolicySweep
+	SweepK     uint64   // PolicySweep
 }
 
 // Result is what a run leaves behind.
@@ -89,6 +92,7 @@ type Result struct {
 	Deadlock    bool
 	Budget      bool
 	BlockedSw   uint64
+	HotYields   []uint64 // per task: yields at hot sites (incl. harness I/O yields)
 }
 
 type pipe struct{ r, w int }
@@ -99,6 +103,7 @@ var st struct {
 	cur           int
 	done          [MaxTasks]bool
 	yields        [MaxTasks]uint64
+	hotcnt        [MaxTasks]uint64
 	mapcnt        [MaxTasks]uint64
 	prio          [MaxTasks]int // prio[t] = priority value, larger runs first
 	total         uint64
@@ -241,10 +246,11 @@ func begin(cfg Config, n int) {
 	st.stuck = 0
 	st.aborted = false
 	st.seq = false
-	st.res = Result{PerTask: make([]uint64, n)}
+	st.res = Result{PerTask: make([]uint64, n), HotYields: make([]uint64, n)}
 	for i := 0; i < MaxTasks; i++ {
 		st.done[i] = false
 		st.yields[i] = 0
+		st.hotcnt[i] = 0
 		st.mapcnt[i] = 0
 		st.prio[i] = 0
 	}
@@ -395,11 +401,23 @@ func Yield(site uint32) {
 		st.res.Budget = true
 		return
 	}
+	isHot := site >= SiteIO || (site < MaxSites && hotSite[site])
+	var hk uint64
+	if isHot {
+		hk = st.hotcnt[t]
+		st.hotcnt[t] = hk + 1
+	}
 	if st.noPreempt > 0 {
 		return
 	}
 	next := t
 	switch st.cfg.Policy {
+	case PolicySweep:
+		if isHot && t == st.cfg.SweepTask && hk == st.cfg.SweepK {
+			if h := highest(t); h >= 0 {
+				next = h
+			}
+		}
 	case PolicyExplicit:
 		if n, ok := st.explicit[[2]uint64{uint64(t), k}]; ok && n >= 0 && n < st.ntasks && !st.done[n] {
 			next = n
@@ -683,6 +701,7 @@ func finish() Result {
 	st.res.Yields = st.total
 	for t := 0; t < st.ntasks; t++ {
 		st.res.PerTask[t] = st.yields[t]
+		st.res.HotYields[t] = st.hotcnt[t]
 		st.res.MapRanges += st.mapcnt[t]
 	}
 	return st.res
